@@ -451,7 +451,7 @@ func atPatterns(body string, syms []string) []string {
 			}
 			term := body[start : end+1]
 			idx = start + 4
-			if !strings.HasSuffix(term, " "+sym+")") {
+			if !strings.HasSuffix(term, " "+sym+")") || strings.Contains(term, "(ite ") {
 				continue
 			}
 			head := term[:len(term)-len(sym)-2]
